@@ -28,3 +28,8 @@ class JSONField(models.TextField):
 
 class UUIDField(models.CharField):
     pass
+
+
+class TreeKey(models.ForeignKey):
+    """a project-defined relation class (like mptt's TreeForeignKey or modelcluster's ParentalKey): a ForeignKey in
+    every respect"""
